@@ -251,14 +251,21 @@ that returns its input or writes it in place cannot damage the simulated series 
 theorem get_input_fresh (h : Heap) : ∃ s, (execProg h progGetInput).env 12 = some s ∧ h.next ≤ s :=
   resultFresh_sound (by decide) h
 
-/-- … and it matters: if the concatenation were skipped for a single feature, the identity model
-followed by `compute_hedge`'s in-place last-step assignment is rejected by the analysis and does
-overwrite the spot buffer on the one-storage heap -/
-theorem shortcut_identity_unsafe :
-    safe progHedgeShortcutIdentity = false ∧ safe progHedgeBatchedIdentity = true ∧
-    (execProg spotHeap progHedgeShortcutIdentity).ver 0 = 1 ∧
-    (execProg spotHeap progHedgeBatchedIdentity).ver 0 = 0 := by
-  refine ⟨by decide, by decide, rfl, rfl⟩
+/-- … and it matters: if the concatenation were skipped for a single feature, a model that writes its
+input in place is rejected by the analysis and does overwrite the spot buffer on the one-storage heap;
+with the in-place last-step write of the code before 70a9f74 even the identity model did -/
+theorem shortcut_unsafe :
+    safe progHedgeShortcutInplaceModel = false ∧ safe progHedgeBatchedInplaceModel = true ∧
+    (execProg spotHeap progHedgeShortcutInplaceModel).ver 0 = 1 ∧
+    (execProg spotHeap progHedgeBatchedInplaceModel).ver 0 = 0 ∧
+    safe progHedgeShortcutIdentity = false ∧ (execProg spotHeap progHedgeShortcutIdentity).ver 0 = 1 ∧
+    safe progHedgeBatchedIdentity = true ∧ (execProg spotHeap progHedgeBatchedIdentity).ver 0 = 0 := by
+  refine ⟨by decide, by decide, rfl, rfl, by decide, rfl, by decide, rfl⟩
+
+/-- the in-place last-step write of the batched branch before 70a9f74 was harmless for MARKET DATA (it
+targets the model's own output): both versions pass the analysis -/
+theorem hedge_batched_old_and_new_safe : safe progHedgeBatchedOld = true ∧ safe progHedgeBatched = true := by
+  decide
 
 /-! ## Part 2 — history independence of the hedger -/
 
